@@ -1,41 +1,49 @@
 (* L1: mirror of the optimisation loops of gophersat,
-     solver/solver.go:945  func (s *Solver) Optimal(results chan Result, stop chan struct{}) Result
-     solver/solver.go:1039 func (s *Solver) Minimize() int
+     solver/solver.go:962  func (s *Solver) Optimal(results chan Result, stop chan struct{}) Result
+     solver/solver.go:1052 func (s *Solver) Minimize() int
+     solver/solver.go:1114 func (s *Solver) minCost() int
+     solver/solver.go:1126 func boundConstr(lits []Lit, weights []int, bound int) *Clause
    The CDCL search is not modelled: [solve] is any function satisfying
    [Spec.Solver.solver_ok].  The incremental
-       s.AppendClause(NewPBClause(lits2, weights2, maxCost-cost+1)); s.Solve()
-   (solver.go:1027-1029) is modelled as solving [bound :: P] from scratch.
+       s.AppendClause(boundConstr(s.hypothesis, weights, maxCost-cost+1)); s.Solve()
+   (solver.go:1040-1042) is modelled as solving [bound :: P] from scratch.
 
    Definitions only.  Proofs are in Proofs/Optim.v. *)
 From Coq Require Import List ZArith Bool.
-From GS Require Import Spec.Base Spec.PB Spec.Solver.
+From GS Require Import Spec.Base Spec.PB Spec.Solver Model.PBNorm.
 Import ListNotations.
 Open Scope Z_scope.
 
 (* solver.Result (solver/interface.go:8) restricted to Status in {Unsat, Sat}. *)
 Inductive oresult := OUnsat | OSat (m : model) (w : Z).
 
-(* The integer that Minimize returns for a result (-1 when Unsat, solver.go:1042). *)
+(* The integer that Minimize returns for a result (-1 when Unsat, solver.go:1055). *)
 Definition oweight (r : oresult) : Z := match r with OUnsat => -1 | OSat _ w => w end.
 Definition omodel (r : oresult) : option model :=
   match r with OUnsat => None | OSat m _ => Some m end.
 
 (* A cost function is [Spec.Solver.cost] = list (weight, literal): s.minWeights / s.minLits.
    SetCostFunc(lits, nil) ("all weights are 1", problem.go:55) is [unit_cost lits]:
-   solver.go:972-973 (maxCost = len), 984-987 (weights[i] = 1), 1003-1004 (cost++). *)
+   solver.go:989-990 (maxCost = len), 1001-1004 (weights[i] = 1), 1020-1021 (cost++);
+   minCost ranges over the nil slice and is 0. *)
 Definition unit_cost (lits : list lit) : cost := map (fun l => (1, l)) lits.
 
-(* solver.go:971-978  maxCost := sum of s.minWeights *)
+(* solver.go:988-995  maxCost := sum of s.minWeights (may be negative) *)
 Definition total_weight (c : cost) : Z := fold_right (fun t a => fst t + a) 0 c.
+
+(* solver.go:1114-1122  minCost: the sum of the negative weights, the smallest value the
+   cost function can take *)
+Definition min_cost_bound (c : cost) : Z :=
+  fold_right (fun t a => (if fst t <? 0 then fst t else 0) + a) 0 c.
 
 (* Only used to compute enough fuel (no Go counterpart). *)
 Definition abs_weight (c : cost) : Z := fold_right (fun t a => Z.abs (fst t) + a) 0 c.
 
-(* solver.go:979-982  s.hypothesis[i] = lit.Negation() *)
+(* solver.go:996-999  s.hypothesis[i] = lit.Negation() *)
 Definition neg_term (t : term) : term := (fst t, - snd t).
 
-(* solver.go:991  sort.Sort(wLits{...}) with Less(i,j) = weights[i] > weights[j]
-   (solver.go:1110).  sort.Sort is not stable; the relative order of equal weights is
+(* solver.go:1008  sort.Sort(wLits{...}) with Less(i,j) = weights[i] > weights[j]
+   (solver.go:1144).  sort.Sort is not stable; the relative order of equal weights is
    NOT mirrored (we use a stable insertion sort).  The order of the terms of the bound
    constraint has no influence on its meaning (Proofs/Optim.v, lhs_perm). *)
 Fixpoint insert_desc (t : term) (l : list term) : list term :=
@@ -45,7 +53,8 @@ Fixpoint insert_desc (t : term) (l : list term) : list term :=
   end.
 Definition sort_desc (l : list term) : list term := fold_right insert_desc [] l.
 
-(* solver.go:992-995  drop the trailing entries whose weight is 0 *)
+(* solver.go:1009-1012  drop the trailing entries whose weight is 0 (with negative weights
+   the zeros are not last; GtEq drops them in boundConstr) *)
 Fixpoint trim_zeros (l : list term) : list term :=
   match l with
   | [] => []
@@ -58,40 +67,50 @@ Fixpoint trim_zeros (l : list term) : list term :=
 
 Definition hypothesis (c : cost) : list term := trim_zeros (sort_desc (map neg_term c)).
 
-(* solver.go:1027  NewPBClause(lits2, weights2, maxCost-cost+1) *)
-Definition bound_pbc (c : cost) (cur : Z) : pbc :=
-  PBC (hypothesis c) (total_weight c - cur + 1).
+(* solver.go:1126-1134  boundConstr = GtEq(lits, copy of weights, bound).Clause():
+   negative weights are moved to the complementary literal and the degree raised, zero
+   weights dropped (pb.go:63), weights saturated (pb.go:28) and sorted by NewPBClause,
+   which panics ([None]) if the final degree is < 1 (clause.go:66).  All of this is
+   Model/PBNorm.v. *)
+Definition bound_constr (hyp : list term) (d : Z) : option pbc :=
+  pb_clause (gt_eq (map snd hyp) (map fst hyp) d).
 
-(* s.model[lit.Var()] (solver.go:1002) is an out-of-range access if a cost literal
+(* solver.go:1040  boundConstr(s.hypothesis, weights, maxCost-cost+1) *)
+Definition bound_pbc (c : cost) (cur : Z) : option pbc :=
+  bound_constr (hypothesis c) (total_weight c - cur + 1).
+
+(* s.model[lit.Var()] (solver.go:1019) is an out-of-range access if a cost literal
    mentions a variable >= nbVars; IntToLit(0) is meaningless.  *)
 Definition cost_wf (n : nat) (c : cost) : bool :=
   forallb (fun t => negb (snd t =? 0) && (Z.abs (snd t) <=? Z.of_nat n)) c.
 
 (* ------------------------------------------------------------------ *)
-(* One turn of the loop "for status == Sat" (solver.go:998-1030).
+(* One turn of the loop "for status == Sat" (solver.go:1015-1043).
    State at the loop head: the constraints added so far, the model just found and the
    results already sent on [results] (most recent first). *)
 
 Inductive ostep :=
 | SDone (r : oresult) (acc : list oresult)       (* loop exit *)
-| SPanic (acc : list oresult)                     (* NewPBClause panics: card < 1 (clause.go:66) *)
+| SPanic (acc : list oresult)                     (* NewPBClause panics: card < 1 (clause.go:66);
+                                                     never happens: Proofs/Optim.v *)
 | SMore (P : problem) (m : model) (acc : list oresult).
 
 Definition opt_step (solve : solver) (n : nat) (c : cost)
            (P : problem) (m : model) (acc : list oresult) : ostep :=
-  let w := cost_of m c in                         (* solver.go:1000-1009 *)
-  let r := OSat m w in                            (* solver.go:1010-1014 *)
-  let acc' := r :: acc in                         (* solver.go:1016-1018 results <- res *)
-  if w =? 0 then SDone r acc'                     (* solver.go:1019-1021 *)
+  let w := cost_of m c in                         (* solver.go:1017-1026 *)
+  let r := OSat m w in                            (* solver.go:1027-1031 *)
+  let acc' := r :: acc in                         (* solver.go:1033-1035 results <- res *)
+  if w =? min_cost_bound c then SDone r acc'      (* solver.go:1036-1038 *)
   else
-    let d := total_weight c - w + 1 in
-    if d <? 1 then SPanic acc'                    (* clause.go:66 *)
-    else
-      let P' := PBC (hypothesis c) d :: P in      (* solver.go:1027 *)
-      match solve n P' with                       (* solver.go:1029 *)
+    match bound_pbc c w with                      (* solver.go:1040 *)
+    | None => SPanic acc'
+    | Some b =>
+      let P' := b :: P in
+      match solve n P' with                       (* solver.go:1042 *)
       | None => SDone r acc'
       | Some m' => SMore P' m' acc'
-      end.
+      end
+    end.
 
 (* [opt_iter k] runs at most 2^k turns of the loop (binary fuel, so that the fuel stays
    a small [nat] even for large weights). *)
@@ -114,14 +133,14 @@ Inductive orun :=
 | RPanic (stream : list oresult)                   (* the Go code panics after sending [stream] *)
 | RDone (r : oresult) (stream : list oresult).     (* returned result, everything sent on [results] *)
 
-(* solver.go:945-1032.  [oc = None] is s.minLits == nil. *)
+(* solver.go:962-1045.  [oc = None] is s.minLits == nil. *)
 Definition optimal_fuel (k : nat) (solve : solver) (n : nat) (P : problem)
            (oc : option cost) : orun :=
-  match solve n P with                             (* solver.go:949 *)
-  | None => RDone OUnsat [OUnsat]                  (* solver.go:950-956: the Unsat result is sent too *)
+  match solve n P with                             (* solver.go:966 *)
+  | None => RDone OUnsat [OUnsat]                  (* solver.go:967-973: the Unsat result is sent too *)
   | Some m =>
     match oc with
-    | None => RDone (OSat m 0) [OSat m 0]          (* solver.go:957-969 *)
+    | None => RDone (OSat m 0) [OSat m 0]          (* solver.go:974-986 *)
     | Some c =>
       if cost_wf n c then
         match opt_iter solve n c k P m [] with
@@ -129,7 +148,7 @@ Definition optimal_fuel (k : nat) (solve : solver) (n : nat) (P : problem)
         | SPanic acc => RPanic (rev acc)
         | SMore _ _ _ => RFuel
         end
-      else RPanic []                               (* solver.go:1002 index out of range *)
+      else RPanic []                               (* solver.go:1019 index out of range *)
     end
   end.
 
@@ -149,8 +168,9 @@ Definition optimal (solve : solver) (n : nat) (P : problem) (oc : option cost)
   end.
 
 (* ------------------------------------------------------------------ *)
-(* Minimize (solver.go:1039-1102): the same loop without the channel; it returns the
-   cost, and s.lastModel (what s.Model() returns afterwards) is the last model. *)
+(* Minimize (solver.go:1052-1111): the same loop without the channel; it returns the
+   cost, and s.lastModel (what s.Model() returns afterwards) is the last model.
+   Note that -1 is also a legitimate cost when weights are negative. *)
 
 Inductive mstep :=
 | MDone (w : Z) (m : model)
@@ -158,17 +178,18 @@ Inductive mstep :=
 | MMore (P : problem) (m : model).
 
 Definition min_step (solve : solver) (n : nat) (c : cost) (P : problem) (m : model) : mstep :=
-  let w := cost_of m c in                         (* solver.go:1076-1085 *)
-  if w =? 0 then MDone 0 m                        (* solver.go:1086-1088 *)
+  let w := cost_of m c in                         (* solver.go:1089-1098 *)
+  if w =? min_cost_bound c then MDone w m         (* solver.go:1099-1101 *)
   else
-    let d := total_weight c - w + 1 in
-    if d <? 1 then MPanic
-    else
-      let P' := PBC (hypothesis c) d :: P in      (* solver.go:1097 *)
-      match solve n P' with                       (* solver.go:1099 *)
-      | None => MDone w m                         (* solver.go:1101 return cost *)
+    match bound_pbc c w with                      (* solver.go:1106 *)
+    | None => MPanic
+    | Some b =>
+      let P' := b :: P in
+      match solve n P' with                       (* solver.go:1108 *)
+      | None => MDone w m                         (* solver.go:1110 return cost *)
       | Some m' => MMore P' m'
-      end.
+      end
+    end.
 
 Fixpoint min_iter (solve : solver) (n : nat) (c : cost) (k : nat)
          (P : problem) (m : model) : mstep :=
@@ -189,10 +210,10 @@ Inductive mrun :=
 Definition minimize_fuel (k : nat) (solve : solver) (n : nat) (P : problem)
            (oc : option cost) : mrun :=
   match solve n P with
-  | None => MRDone (-1) None                       (* solver.go:1041-1043 *)
+  | None => MRDone (-1) None                       (* solver.go:1054-1056 *)
   | Some m =>
     match oc with
-    | None => MRDone 0 (Some m)                    (* solver.go:1044-1046; Solve set lastModel (solver.go:589) *)
+    | None => MRDone 0 (Some m)                    (* solver.go:1057-1059; Solve set lastModel *)
     | Some c =>
       if cost_wf n c then
         match min_iter solve n c k P m with
